@@ -66,6 +66,7 @@ type Engine struct {
 	ginit           map[*ssa.Global][]globalInitFact
 	bodySum         map[*ssa.Function]map[string]bool
 	ctKeys          []string
+	sacCache        map[*ssa.Alloc]bool
 }
 
 type chanHooks struct {
@@ -1117,4 +1118,59 @@ func (eng *Engine) referencedGlobals(fn *ssa.Function, depth int, seen map[*ssa.
 			}
 		}
 	}
+}
+
+
+// singleAssignmentCell: the local variable behind this Alloc is written exactly once (its initialisation) in its function
+// and never in the closures that capture it: its content is a constant of the activation (captured parameters like c,
+// ctx, match in the clients' SendAndRead). Only one-slot variables.
+func (eng *Engine) singleAssignmentCell(al *ssa.Alloc) bool {
+	if eng.sacCache == nil {
+		eng.sacCache = map[*ssa.Alloc]bool{}
+	}
+	if v, ok := eng.sacCache[al]; ok {
+		return v
+	}
+	res := func() bool {
+		et := al.Type().Underlying().(*types.Pointer).Elem()
+		if slots(et) != 1 || kindOf(et) == "" {
+			return false
+		}
+		n := 0
+		var scan func(fn *ssa.Function, cell ssa.Value, depth int) bool
+		scan = func(fn *ssa.Function, cell ssa.Value, depth int) bool {
+			if depth > 4 || cell.Referrers() == nil {
+				return false
+			}
+			for _, r := range *cell.Referrers() {
+				switch x := r.(type) {
+				case *ssa.Store:
+					if x.Addr == cell {
+						n++
+					} else {
+						return false // the address itself is stored somewhere
+					}
+				case *ssa.UnOp, *ssa.DebugRef:
+				case *ssa.MakeClosure:
+					cf := x.Fn.(*ssa.Function)
+					for i, b := range x.Bindings {
+						if b == cell {
+							if i >= len(cf.FreeVars) || !scan(cf, cf.FreeVars[i], depth+1) {
+								return false
+							}
+						}
+					}
+				default:
+					return false // address escapes (call argument, phi, ...)
+				}
+			}
+			return true
+		}
+		if !scan(al.Parent(), al, 0) {
+			return false
+		}
+		return n == 1
+	}()
+	eng.sacCache[al] = res
+	return res
 }
